@@ -17,15 +17,16 @@ Definition top_classes (h : hint) : option (list nat) :=
   | HTuple _ => Some [c_tuple]
   | HType _ => Some [c_type]
   | HLiteral vs => Some (map type_of vs)
-  | HAny | HUnion _ => None
+  | HAny | HUnion _ | HAnnot _ _ => None
   end.
 
 Section Detect.
   Variable cf : gconf.
+  Variable pb : nat -> pyval -> bool.
 
   (* 1. wrong top-level class: rejected whatever the draw *)
   Theorem reject_toplevel h x cs r :
-    hint_ok h = true -> top_classes h = Some cs -> isinst x cs = false -> chk cf r h x = false.
+    hint_ok h = true -> top_classes h = Some cs -> isinst x cs = false -> chk cf r pb h x = false.
   Proof.
     destruct h; cbn [top_classes hint_ok]; intros Hok E Hi; inversion E; subst; cbn [chk]; try (now rewrite Hi).
     destruct (ignorable h); [exact Hi|]. apply andb_true_iff in Hok as [Hf _].
@@ -34,14 +35,14 @@ Section Detect.
 
   (* 2. fixed-length tuples: wrong length, or a violation at any unignorable position *)
   Theorem reject_tuple_length hs x r :
-    List.length (items x) <> List.length hs -> chk cf r (HTuple hs) x = false.
+    List.length (items x) <> List.length hs -> chk cf r pb (HTuple hs) x = false.
   Proof.
     intros H. rewrite chk_tuple_unfold. apply Nat.eqb_neq in H. rewrite H. now rewrite andb_false_r.
   Qed.
 
   Lemma tuple_chk_position x r hs : forall n k h',
     nth_error hs k = Some h' -> ignorable h' = false ->
-    chk cf r h' (nth (n + k) (items x) VNone) = false -> tuple_chk cf r x hs n = false.
+    chk cf r pb h' (nth (n + k) (items x) VNone) = false -> tuple_chk cf r pb x hs n = false.
   Proof.
     induction hs as [|h hs IH]; intros n k h' Hn Hig Hc; [destruct k; discriminate|].
     cbn [tuple_chk]. destruct k as [|k].
@@ -52,7 +53,7 @@ Section Detect.
 
   Theorem reject_tuple_position hs x r k h' :
     nth_error hs k = Some h' -> ignorable h' = false ->
-    chk cf r h' (nth k (items x) VNone) = false -> chk cf r (HTuple hs) x = false.
+    chk cf r pb h' (nth k (items x) VNone) = false -> chk cf r pb (HTuple hs) x = false.
   Proof.
     intros Hn Hig Hc. rewrite chk_tuple_unfold.
     rewrite (tuple_chk_position x r hs 0 k h' Hn Hig Hc). now rewrite andb_false_r.
@@ -60,7 +61,7 @@ Section Detect.
 
   (* 3. literals: equal to no member, or of none of their types *)
   Theorem reject_literal vs x r :
-    (forall v, In v vs -> py_eq x v = false) -> chk cf r (HLiteral vs) x = false.
+    (forall v, In v vs -> py_eq x v = false) -> chk cf r pb (HLiteral vs) x = false.
   Proof.
     intros H. cbn [chk]. replace (existsb (py_eq x) vs) with false; [now rewrite andb_false_r|].
     symmetry. apply not_true_is_false. intros E. apply existsb_exists in E as (v & Hin & Hv).
@@ -68,14 +69,14 @@ Section Detect.
   Qed.
 
   (* 4. type[...]: not a class, or not a subclass *)
-  Theorem reject_type cs x r : issubcls x cs <> Some true -> chk cf r (HType cs) x = false.
+  Theorem reject_type cs x r : issubcls x cs <> Some true -> chk cf r pb (HType cs) x = false.
   Proof.
     intros H. cbn [chk]. destruct (issubcls x cs) as [[|]|]; [congruence| |]; now rewrite andb_false_r.
   Qed.
 
   (* 5. unions with no matching member *)
   Theorem reject_union hs x r :
-    (forall h', In h' hs -> chk cf r h' x = false) -> chk cf r (HUnion hs) x = false.
+    (forall h', In h' hs -> chk cf r pb h' x = false) -> chk cf r pb (HUnion hs) x = false.
   Proof.
     intros H. rewrite chk_union_unfold. induction hs as [|h hs IH]; [reflexivity|].
     cbn [union_any]. rewrite (H h) by now left. cbn [orb]. apply IH. intros h' Hin. apply H. now right.
@@ -85,8 +86,8 @@ Section Detect.
   Theorem reject_all_items s ch x r :
     ignorable ch = false -> hint_ok (HCont s ch) = true ->
     issub (type_of x) c_Collection = true -> items x <> [] ->
-    (forall y, In y (items x) -> chk cf r ch y = false) ->
-    chk cf r (HCont s ch) x = false.
+    (forall y, In y (items x) -> chk cf r pb ch y = false) ->
+    chk cf r pb (HCont s ch) x = false.
   Proof.
     intros Hig Hok Hc Hne Hall. cbn [chk hint_ok] in *. rewrite Hig.
     apply andb_true_iff in Hok as [Hf _].
@@ -113,8 +114,8 @@ Section Detect.
   Theorem reach_sequence_item s ch x i :
     is_random cf = true -> ignorable ch = false -> sign_family s = Some FSequence ->
     i < List.length (items x) -> (Z.of_nat i < 2 ^ 32)%Z ->
-    (forall r, chk cf r ch (nth i (items x) VNone) = false) ->
-    exists r, (0 <= r < 2 ^ 32)%Z /\ chk cf r (HCont s ch) x = false.
+    (forall r, chk cf r pb ch (nth i (items x) VNone) = false) ->
+    exists r, (0 <= r < 2 ^ 32)%Z /\ chk cf r pb (HCont s ch) x = false.
   Proof.
     intros Hr Hig Hf Hi H32 Hbad. exists (Z.of_nat i). split; [lia|].
     cbn [chk]. rewrite Hig, Hf.
@@ -132,7 +133,7 @@ Section Detect.
   (* 8. with is_random=False the first item is the one inspected *)
   Theorem nonrandom_first s ch x r :
     is_random cf = false -> ignorable ch = false -> sign_family s = Some FSequence ->
-    items x <> [] -> chk cf r ch (first x) = false -> chk cf r (HCont s ch) x = false.
+    items x <> [] -> chk cf r pb ch (first x) = false -> chk cf r pb (HCont s ch) x = false.
   Proof.
     intros Hr Hig Hf Hne Hbad. cbn [chk]. rewrite Hig, Hf.
     assert (Hl : len0 x = false) by (rewrite len0_items; destruct (items x); [congruence|reflexivity]).
@@ -143,21 +144,29 @@ Section Detect.
         item the check accepts *)
   Theorem accept_consistent s ch x r :
     ignorable ch = false -> hint_ok (HCont s ch) = true -> issub (type_of x) c_Collection = true ->
-    chk cf r (HCont s ch) x = true ->
-    items x = [] \/ exists y, In y (items x) /\ chk cf r ch y = true.
+    chk cf r pb (HCont s ch) x = true ->
+    items x = [] \/ exists y, In y (items x) /\ chk cf r pb ch y = true.
   Proof.
     intros Hig Hok Hc H. destruct (items x) as [|a l] eqn:El; [now left|right].
     assert (Hne : items x <> []) by (rewrite El; discriminate).
-    destruct (existsb (chk cf r ch) (items x)) eqn:Ex.
+    destruct (existsb (chk cf r pb ch) (items x)) eqn:Ex.
     - apply existsb_exists in Ex as (y & Hin & Hy). rewrite <- El. eauto.
     - exfalso. rewrite (reject_all_items s ch x r Hig Hok Hc Hne) in H; [discriminate|].
       intros y Hin. apply not_true_is_false. intros Hy.
-      assert (existsb (chk cf r ch) (items x) = true) by (apply existsb_exists; eauto). congruence.
+      assert (existsb (chk cf r pb ch) (items x) = true) by (apply existsb_exists; eauto). congruence.
+  Qed.
+
+  (* 9b. a failed validator rejects, whatever the draw *)
+  Theorem reject_validator mh vs v x r :
+    In v vs -> vmean pb v x = false -> chk cf r pb (HAnnot mh vs) x = false.
+  Proof.
+    intros Hin Hv. cbn [chk]. replace (forallb (fun w => vmean pb w x) vs) with false; [now rewrite andb_false_r|].
+    symmetry. apply not_true_is_false. intros H. rewrite forallb_forall in H. rewrite (H v Hin) in Hv. discriminate.
   Qed.
 
   (* 10. elision only drops hints that accept every object of the class table *)
   Theorem ignorable_accepts_all h x :
-    ignorable h = true -> issub (type_of x) c_object = true -> sat h x = true.
+    ignorable h = true -> issub (type_of x) c_object = true -> sat pb h x = true.
   Proof.
     induction h using hint_ind2; cbn [ignorable]; intros Hig Ho; try discriminate.
     - reflexivity.
